@@ -212,9 +212,9 @@ def build_argv(rng, rec, tmp, idx, allow_files=True, in_process=True):
             if rng.random() < 0.4:
                 meta["j"] = rng.choice((0, 0.05, 0.1))
                 argv += [rng.choice(("-j", "--join-detections")), repr(meta["j"])]
-        elif r < 0.36:
-            meta["j"] = 0.1
-            argv += ["-j", "0.1"]  # without -O: status 1
+        elif r < 0.38:
+            meta["j"] = rng.choice((0.1, 0.0, 0, 1.5))
+            argv += [rng.choice(("-j", "--join-detections")), repr(meta["j"])]  # without -O: status 1, whatever the value
         if rng.random() < 0.3:
             d = os.path.join(tmp, f"dets{idx}")
             os.makedirs(d, exist_ok=True)
@@ -236,8 +236,10 @@ class _FakeStdin:
         self.buffer = self._B(d)
 
 
-def run_in_process(argv, stdin_bytes):
+def run_in_process(argv, stdin_bytes, pipe_rng=None):
     import auditok.cmdline as CL
+
+    from ..stdin import PipeStdin
 
     alive = [t.name for t in threading.enumerate() if t is not threading.current_thread()]
     if alive:
@@ -245,7 +247,13 @@ def run_in_process(argv, stdin_bytes):
     out, err = io.StringIO(), io.StringIO()
     old_time, old_stdin = CL.time, sys.stdin
     CL.time = types.SimpleNamespace(sleep=lambda s: _time.sleep(0.002))
-    sys.stdin = _FakeStdin(stdin_bytes if stdin_bytes is not None else b"")
+    ps = None
+    if stdin_bytes is not None and pipe_rng is not None:
+        # a real pipe + BufferedReader + fileno, fed in small window-unaligned chunks (the feeder ends once all is read)
+        ps = PipeStdin(stdin_bytes, pipe_rng, max_chunk=997)
+        sys.stdin = ps
+    else:
+        sys.stdin = _FakeStdin(stdin_bytes if stdin_bytes is not None else b"")
     res = {}
     try:
         with contextlib.redirect_stdout(out), contextlib.redirect_stderr(err):
@@ -257,6 +265,8 @@ def run_in_process(argv, stdin_bytes):
                 res["rc"] = ("exception", type(exc).__name__, repr(exc)[:200])
     finally:
         CL.time, sys.stdin = old_time, old_stdin
+        if ps is not None:
+            ps.close()
     # give stray worker threads a moment; they must all be gone when main returns normally
     t_end = _time.monotonic() + 5
     while _time.monotonic() < t_end and len(threading.enumerate()) > 1:
@@ -268,12 +278,35 @@ def run_in_process(argv, stdin_bytes):
 
 def run_subprocess(argv, stdin_bytes):
     env = dict(os.environ, PYTHONPATH=os.environ.get("VERIF_REPO", "/repo"), PYTHONDONTWRITEBYTECODE="1")
+    p = subprocess.Popen([sys.executable, "-m", "auditok.cmdline"] + list(argv), stdin=subprocess.PIPE, stdout=subprocess.PIPE,
+                         stderr=subprocess.PIPE, env=env)
     try:
-        p = subprocess.run([sys.executable, "-m", "auditok.cmdline"] + list(argv), input=stdin_bytes if stdin_bytes is not None else b"",
-                           capture_output=True, env=env, timeout=120)
+        if stdin_bytes:
+            # a slow producer: chunks that do not line up with analysis windows, short pauses in the middle of windows
+            rng = random.Random(len(stdin_bytes))
+            i, pauses = 0, 0
+            while i < len(stdin_bytes):
+                k = rng.choice((1, 3, 7, 101, 997, 4099))
+                try:
+                    p.stdin.write(stdin_bytes[i : i + k])
+                    p.stdin.flush()
+                except (BrokenPipeError, OSError):
+                    break
+                i += k
+                if pauses < 25 and rng.random() < 0.3:
+                    pauses += 1
+                    _time.sleep(0.004)
+        try:
+            p.stdin.close()
+        except OSError:
+            pass
+        p.stdin = None
+        out, err = p.communicate(timeout=120)
     except subprocess.TimeoutExpired:
+        p.kill()
+        p.communicate()
         return {"inconclusive": "child exceeded 120 s"}
-    return {"rc": p.returncode, "stdout": p.stdout.decode("utf-8", "replace"), "stderr": p.stderr.decode("utf-8", "replace"), "threads_left": []}
+    return {"rc": p.returncode, "stdout": out.decode("utf-8", "replace"), "stderr": err.decode("utf-8", "replace"), "threads_left": []}
 
 
 def parse_line(line, template):
@@ -441,7 +474,10 @@ def run_shard(ctx):
         for i in range(conf["runs"]):
             rec = make_recording(rng)
             argv, kw, meta = build_argv(rng, rec, tmp, i)
-            res = run_in_process(argv, rec["data"] if meta["kind"] == "stdin" else None)
+            use_pipe = meta["kind"] == "stdin" and kw["max_read"] is None  # with -M the tool stops reading early: a feeder would stay blocked
+            res = run_in_process(argv, rec["data"] if meta["kind"] == "stdin" else None, rng if use_pipe else None)
+            if use_pipe:
+                ctx.count("stdin_fed_through_a_real_pipe")
             check_cli(ctx, rec, argv, kw, meta, res, "in_process")
             for f in os.listdir(tmp):
                 p = os.path.join(tmp, f)
@@ -465,7 +501,7 @@ def inconclusive(merged, tier):
     c = merged["counters"]
     need = ["cli_runs_in_process", "cli_runs_subprocess", "lines_checked", "times_checked", "quiet_runs", "j_without_O_runs",
             "O_files_checked", "j_files_checked", "o_dirs_checked", "formatter_values", "formatter_bad_directives",
-            "bad_time_format_runs", "input_raw", "input_wav", "input_stdin"]
+            "bad_time_format_runs", "input_raw", "input_wav", "input_stdin", "stdin_fed_through_a_real_pipe"]
     out = [f"monitor never observed {k}" for k in need if c.get(k, 0) == 0]
     if c.get("inconclusive_runs", 0) > 2:
         out.append(f"{c['inconclusive_runs']} command-line runs were inconclusive")
